@@ -77,7 +77,11 @@ def gen_case(rng, idx):
         user = {"lhv": u["lhv_mj_per_g"], "wtt": u["ghg_emission_factor_well_to_tank_gco2eq_per_mj"],
                 "rows": [[r.co2_factor_gco2_per_gfuel, r.ch4_factor_gch4_per_gfuel, r.n2o_factor_gn2o_per_gfuel, r.c_slip_percent,
                           None if r.fuel_consumer_class is None else r.fuel_consumer_class.value] for r in u["ghg_emission_factor_tank_to_wake"]]}
-    return {"idx": idx, "spec": spec, "fuels": fuels, "cls": cls, "n_steps": n_steps, "user": user}
+    int_series = bool(n_steps > 0 and rng.random() < 0.15)       # a hand-written whole-number series in an integer array
+    if int_series:
+        for f in fuels:
+            f["mass"] = [float(round(x)) for x in f["mass"]]
+    return {"idx": idx, "spec": spec, "fuels": fuels, "cls": cls, "n_steps": n_steps, "user": user, "int_series": int_series}
 
 
 def build(case):
@@ -85,7 +89,8 @@ def build(case):
     out = []
     for f in case["fuels"]:
         m = f["mass"]
-        mass = np.array(m, dtype=float) if isinstance(m, list) else float(m)
+        as_int = isinstance(m, list) and case.get("int_series") and all(float(x).is_integer() for x in m)
+        mass = np.array(m, dtype=int if as_int else float) if isinstance(m, list) else float(m)
         if spec == FuelSpecifiedBy.USER:
             u = case["user"]
             rows = [GhgEmissionFactorTankToWake(r[0], r[1], r[2], r[3], None if r[4] is None else Cls(r[4])) for r in u["rows"]]
